@@ -1,6 +1,8 @@
 """C07 — no input can crash the host; errors are returned and leave the engine usable.
 
-translate  : translate/c07_arms.py regenerates lean/SteelVerif/C07/GenArms.lean from /repo (match arms of the numeric
+translate  : translate/c07_unwind.py regenerates GenUnwind.lean (order of the pop_count test / decrement in both unwind loops,
+             stack.clear(), which call paths count their frame right after the push and which push without counting);
+             translate/c07_arms.py regenerates lean/SteelVerif/C07/GenArms.lean from /repo (match arms of the numeric
              primitives per pair of value kinds; every potential panic site of primitives/*.rs and steel_vm/primitives.rs:
              `unwrap()`, `expect(`, `unreachable!`, `todo!`, `panic!`, `assert!`, unchecked accessors, `[i]`, `as usize`).
 prove      : lake build SteelVerif.C07.Props + axiom audit:
@@ -24,6 +26,10 @@ explore    : the REAL engine, in child processes (an abort / stack overflow / ha
                   a pool of ~80 values of every kind and boundary magnitude: arities 0..2 exhaustively, arity 3
                   pairwise (quick, and procedures of unknown arity) / exhaustively (thorough); the applying loop is a
                   top-level procedure or a procedure of a required module.
+   (iv) callbacks: the native higher-order built-ins are DISCOVERED (every built-in applied with a counting procedure in
+                  every position, results run by consumers); every site is evaluated at the top level with failing
+                  callbacks (wrong arity, raising, non-procedure, nested); after the error: a top-level let-probe, the
+                  depth hook, the probe; then the same expression under call-with-exception-handler handlers.
    (iii) engines: a directed probe: engines are created, used for one small procedure and dropped a few hundred times
                   in ONE process (an embedder that makes an engine per request), with the JIT and with STEEL_JIT=false.
 oracle     : a panic reaching catch_unwind, an abort, a signal, a native stack overflow, an evaluation that cannot be
@@ -51,9 +57,9 @@ PID = "C07"
 META = {
     "ready": True,
     "category": "proof",
-    "technique": "Lean 4: totality/range theorems of the reader (from C12), match-arm coverage and panic-site classification decided over tables regenerated from the Rust sources, and a model of the VM's error unwinding / build roll-back with clean-state theorems; plus an exploration of the real engine in crash-isolated child processes (texts: random, grammar-derived, mutated suite scripts; built-ins: every registered procedure on a pool of boundary values) whose oracle is the property itself",
-    "level_text": "Proved (SteelVerif/C07/Props.lean): frontend_total/frontend_spans (reader total, spans in range; re-export of C12); arms_total/arms_total_unary (every pair / every numeric kind reaches a non-panicking arm in each numeric primitive, over tables regenerated from numbers.rs and rvals.rs); panic_sites_classified/reachable_sites_named (each of the ~300 extracted potential panic sites of the primitives is in the hand-reviewed table, reachable ones name their finding); for the model of SteelThread::execute: failed_run_leaves_clean_partial, handler_run_resumes_clean, run_never_panics, failed_forms_keep_completed, history_stays_clean (any fuel, any program, any history of failing and succeeding evaluations: both stacks empty afterwards, executed definitions kept, the pop_count == 0 early return is dead code), failed_build_is_noop_partial (parametric in a symbol map whose roll_back restores). FailedRunLeavesClean holds in full since the repair of K07a (a handler that is not a closure; found by this model, f4f0e66b); FailedBuildIsNoop is kept and refuted by a witness replayed on the engine (define-syntax of a failed program stays defined: K07z). The model is tied to the engine by generated programs on every run. The property as a whole is partial: panic-freedom of 100k lines of Rust is explored (oracle = the property), not proved; every open failure class is a KNOWN_FINDINGS entry.",
-    "level_note": "Trusted: Lean kernel, translators, harness, orchestrator. Not modelled: everything outside the reader, the numeric dispatch tables and the recovery machine; native stack size; allocation failure; the JIT.",
+    "technique": "Lean 4: totality/range theorems of the reader (from C12), match-arm coverage and panic-site classification decided over tables regenerated from the Rust sources, and a model of the VM's error unwinding (incl. the call paths that push a frame before it is counted, and the order of the pop_count test and decrement read from vm.rs) / build roll-back with clean-state theorems; plus an exploration of the real engine in crash-isolated child processes (texts: random, grammar-derived, mutated suite scripts; built-ins: every registered procedure on a pool of boundary values, indexed and aliased-argument sweeps up to arity 5; errors raised inside callbacks of every native higher-order built-in discovered at run time) whose oracle is the property itself",
+    "level_text": "Proved (SteelVerif/C07/Props.lean): frontend_total/frontend_spans (reader total, spans in range; re-export of C12); arms_total/arms_total_unary (every pair / every numeric kind reaches a non-panicking arm in each numeric primitive, over tables regenerated from numbers.rs and rvals.rs); panic_sites_classified/reachable_sites_named (each of the ~300 extracted potential panic sites of the primitives is in the hand-reviewed table, reachable ones name their finding); gen_unwind_order(_both)/gen_counted_paths/gen_uncounted_paths_as_modelled (translate/c07_unwind.py: in both unwind loops the pop_count == 0 test precedes the decrement, stack.clear() follows the outer loop, every counted call path counts its frame right after the push, the uncounted paths call_with_one_arg/two_args/args are fallible after the push exactly as the model's callbackArity instruction); for the model of SteelThread::execute (any fuel, program, history; the model includes the call paths that push a frame before it is counted, instruction callbackArity, whose behaviour follows the flag windowOpen read from vm.rs): failed_run_leaves_clean and handled_run_leaves_clean — the FULL statements FailedRunLeavesClean / HandledRunLeavesClean — for the code that exists (windowOpen = false since /repo commit 27b7e09f); failed_run_leaves_clean_partial, handler_run_resumes_clean_partial, failed_forms_keep_completed, history_stays_clean in either configuration under the decidable guard `at most one callback arity error` (ghost counter lost; both stacks empty afterwards, executed definitions kept); run_never_panics without guard; the witnesses that refuted the full statements before the repair are kept for that configuration (windowOpen = true -> counter_*: a callback arity error caught by a call-with-exception-handler handler left pop_count one too low: the evaluation ended a return early, frames stayed after a successful evaluation, a later error left through the pop_count == 0 early return without stack.clear()) — finding K07ai, found by this extension of the model, replayed on the engine by the callback family, repaired by 27b7e09f; regression_handled_callback_arity_errors for the repaired configuration; failed_build_is_noop_partial (parametric in a symbol map whose roll_back restores); FailedBuildIsNoop refuted by a witness replayed on the engine (K07z). The model is tied to the engine by generated programs on every run (incl. callback arity errors under handlers). The property as a whole is partial: panic-freedom of 100k lines of Rust is explored (oracle = the property), not proved; every open failure class is a KNOWN_FINDINGS entry.",
+    "level_note": "Trusted: Lean kernel, translators (regex extraction), harness, orchestrator. Not modelled: everything outside the reader, the numeric dispatch tables and the recovery machine; nested VM instances are represented by their effect on the counters (a callback of the right arity is a value or a failing primitive); native stack size; allocation failure; the JIT.",
 }
 
 BIN = C.bin_path("c07")
@@ -253,6 +259,7 @@ FINDING_CLASSES = [
     ("module-get-unknown-symbol-panics", [r"panic:crates/steel-core/src/steel_vm/builtin\.rs:get"]),
     ("engine-jit-memory-never-released",
      [r"engines:panic:crates/steel-core/src/jit2/cgen\.rs:.*", r"engines:panic:.*jit\.rs:jit_compile_lambda", r"engines:mappings-never-released"]),
+    ("uncounted-callback-frame-discounted-by-handler", [r"callback:handled-arity-error:ends-two-frames-early"]),
     ("macro-of-failed-program-stays-defined", [r"history:macro-of-failed-program-is-not-defined"]),
     ("continuation-of-finished-evaluation", [r"history:continuation-of-earlier-.*"]),
 ]
@@ -420,6 +427,49 @@ def indexed_call_text(module, name, arity, k):
     return "(define (c07-once f) (with-handler (lambda (e) (list 'error e)) (f %s)))\n(c07-once %s)" % (" ".join(args), head)
 
 
+def accepts(arity, n):
+    """does the registered arity admit a call with n arguments (unknown arity: yes)"""
+    m = re.match(r"(\w+)\((\d+)(?:, (\d+))?\)", arity)
+    if not m:
+        return True
+    k, a = m.group(1), int(m.group(2))
+    return {"Exact": n == a, "AtLeast": n >= a, "AtMost": n <= a, "Range": a <= n <= int(m.group(3) or a)}.get(k, True)
+
+
+ALIAS_QUICK_COLLECTIONS = [0, 3, 5, 6, 7, 9]      # arity 5 in the quick tier: string, list, both vectors, immutable vector, bytes
+
+
+def alias_base(arity):
+    return 9 if arity == 3 else 6
+
+
+def alias_admitted(arity):
+    """admitted slot patterns per collection: V alone, V twice, V then W; indices elsewhere"""
+    m = 7 if arity == 3 else 4
+    return arity * m ** (arity - 1) + 2 * (arity * (arity - 1) // 2) * m ** (arity - 2)
+
+
+def alias_slots(arity, x):
+    b = alias_base(arity)
+    return [(x // b ** i) % b for i in range(arity)]
+
+
+def alias_call_text(module, name, arity, k):
+    """source of one application of the aliased sweep (mode 3): the collection V (bound once: the same object in every
+    slot that names it), a second instance W, indices derived from the length"""
+    fr = fresh_exprs()
+    b = alias_base(arity)
+    per = b ** arity
+    e, n = fr[k // per]
+    m = 7 if arity == 3 else 4
+    args = []
+    for d in alias_slots(arity, k % per):
+        args.append("v" if d == 0 else "w" if d == 1 else str(didx(d - 2, n) if m == 7 else [0, 1, n - 1, n][d - 2]))
+    head = "(%%module-get%% %%-builtin-module-%s '%s)" % (module, name)
+    return ("(define (c07-once f) (let ((v %s) (w %s)) (with-handler (lambda (e) (list 'error e)) (f %s))))\n(c07-once %s)"
+            % (e, e, " ".join(args), head))
+
+
 def run_builtins(ctx, classes, stats):
     fns = list_builtins()
     pool = pool_exprs()
@@ -454,6 +504,20 @@ def run_builtins(ctx, classes, stats):
             if a in (1, 2, 3):
                 for w in ([(sum(map(ord, name)) + a + ctx.seed + 1) % 2] if quick else [0, 1]):
                     jobs.append((name, module, a, 2, 0, indexed_total(a), w))
+        # the aliased sweep (mode 3): arities 3..5, the SAME freshly built collection in one or two argument slots (or
+        # two instances of it), the other slots indices derived from its length — copy / fill / splice procedures whose
+        # source and destination may be one object
+        for a in (3, 4, 5):
+            if not accepts(arity, a):
+                continue
+            per = alias_base(a) ** a
+            nf = len(fresh_exprs())
+            w = (sum(map(ord, name)) + a + ctx.seed) % 2
+            if a == 5:
+                for c in (ALIAS_QUICK_COLLECTIONS if quick else range(nf)):
+                    jobs.append((name, module, a, 3, c * per, (c + 1) * per, w))
+            else:
+                jobs.append((name, module, a, 3, 0, nf * per, w))
     stats["sweep_jobs_top_level"] = sum(1 for j in jobs if j[6] == 0)
     stats["sweep_jobs_in_module"] = sum(1 for j in jobs if j[6] == 1)
     stats["builtins"] = len(fns)
@@ -536,9 +600,11 @@ def builtin_worker(ctx, wid, queue):
                 hooks = []
             elif f[0] == "G" and cur is not None:
                 kv = dict(x.split("=", 1) for x in f[4:] if "=" in x)
-                res["ok"] += int(kv.get("ok", 0))
+                # (mode 3 enumerates slot patterns and applies only the admitted ones; a skipped pattern counts as `ok` in the harness)
+                skipped = (cur[5] - cur[4]) - alias_admitted(cur[2]) * ((cur[5] - cur[4]) // alias_base(cur[2]) ** cur[2]) if cur[3] == 3 else 0
+                res["ok"] += int(kv.get("ok", 0)) - skipped
                 res["err"] += int(kv.get("err", 0))
-                res["tuples"] += cur[5] - cur[4]
+                res["tuples"] += cur[5] - cur[4] - skipped
                 res.setdefault("slow", []).append((int(kv.get("ms", 0)), "%s/%d" % (cur[0], cur[2])))
                 if kv.get("frames") != "0" or kv.get("stack") != "0":
                     res["events"].append(("residue", cur, -1, "frames=%s stack=%s" % (kv.get("frames"), kv.get("stack"))))
@@ -630,7 +696,7 @@ def confirm_builtin_events(ctx, raw, pool, n, classes, stats):
         if seen[dk] > (1 if ctx.quick() else 3):
             continue
         if k >= 0:
-            text = (indexed_call_text(module, name, arity, k) if mode == 2
+            text = (indexed_call_text(module, name, arity, k) if mode == 2 else alias_call_text(module, name, arity, k) if mode == 3
                     else call_text(module, name, tuple_of(k, arity, mode, n), pool))
         else:
             text = None
@@ -817,7 +883,11 @@ def run_texts(ctx, items, fresh_each=False, tag="t", engine_every=40, phases=Tru
             for c, i in enumerate(todo):
                 if c and (fresh_each or c % engine_every == 0):
                     lines.append("N")
-                lines.append("%s %d %s" % ("M" if items[i][0].startswith("mod:") else "T", i, items[i][1].hex()))
+                key_i, body_i = items[i][0], items[i][1]
+                if key_i.startswith("cb:"):         # callback family: (text, handled variant)
+                    lines.append("C %d %s" % (i, " ".join(x.hex() for x in body_i)))
+                else:
+                    lines.append("%s %d %s" % ("M" if key_i.startswith("mod:") else "X" if key_i.startswith("x:") else "T", i, body_i.hex()))
             env = {"C07_SOFT_MS": str(soft), "C07_HARD_MS": str(hard), "C07_MODS": MODS}
             rc, tail = spawn("texts", lines, out, sandbox, env=env, timeout=60 + (hard // 1000 + 2) * len(todo))
             recs = read_records(out)
@@ -853,6 +923,18 @@ def run_texts(ctx, items, fresh_each=False, tag="t", engine_every=40, phases=Tru
                 elif f[0] == "Q" and cur is not None:
                     q = f[2] if len(f) > 2 else ""
                     local[cur]["probe"] = q if q == "same" else bytes.fromhex(q).decode("utf-8", "replace")
+                elif f[0] == "V" and cur is not None:
+                    local[cur]["value"] = bytes.fromhex(f[2] if len(f) > 2 else "").decode("utf-8", "replace")
+                    local[cur]["res"] = "ok"
+                elif f[0] in ("L", "W") and cur is not None:
+                    q = f[2] if len(f) > 2 else ""
+                    local[cur]["let_probe" if f[0] == "L" else "handled_value"] = q if q == "same" else bytes.fromhex(q).decode("utf-8", "replace")
+                elif f[0] == "E" and cur is not None:
+                    local[cur]["handled_depth"] = f[2] if len(f) > 2 else ""
+                elif f[0] == "U" and cur is not None:
+                    local[cur]["then_unhandled"] = f[2] if len(f) > 2 else ""
+                elif f[0] == "S" and cur is not None:
+                    local[cur]["second_run_differs"] = True
                 elif f[0] == "O" and cur is not None:
                     local[cur]["others"].append(f[2] if len(f) > 2 else "")
                 elif f[0] == "I" and cur is not None:
@@ -875,7 +957,8 @@ def run_texts(ctx, items, fresh_each=False, tag="t", engine_every=40, phases=Tru
                 continue
             # text `cur` killed the child (unless it had already been answered completely: then the next one did)
             r = local[cur]
-            complete = "res" in r and (not (r["res"].startswith("err") or r["res"].startswith("panic")) or "probe" in r)
+            complete = "res" in r and (not (r["res"].startswith("err") or r["res"].startswith("panic")) or
+                                       ("then_unhandled" in r if items[cur][0].startswith("cb:") and r["res"].startswith("err") else "probe" in r))
             pos = todo.index(cur)
             if complete and not r.get("hang"):
                 if pos + 1 < len(todo):
@@ -1049,7 +1132,13 @@ def gen_rec_expr(r, d):
     Shapes are chosen so that the model's frames are real frames of the VM: the operator of a call is a computed value
     (an immediately applied lambda is compiled as a `let`, a known same-unit procedure may be inlined), and every
     frame-pushing expression sits in operand position of `(+ 0 _)` (a call in tail position re-uses the frame)."""
-    k = r.randrange(11) if d > 0 else r.choice([0, 0, 0, 9])
+    k = r.randrange(13) if d > 0 else r.choice([0, 0, 0, 9, 11])
+    if k >= 11:
+        # a callback of the wrong arity called by a native higher-order procedure: the frame is pushed, not counted,
+        # and left behind (model instruction `A`; call_with_one_arg / call_with_two_args in vm.rs)
+        if k == 11:
+            return "(transduce (list 1 2) (filtering (lambda (x y) #t)) (into-list))", "A"
+        return "(transduce (list 1 2) (mapping (lambda (x) x)) (into-reducer (lambda (a) a) 0))", "A"
     if k <= 1:
         n = r.randrange(1, 9)
         return str(n), "P%d" % n
@@ -1135,6 +1224,236 @@ def run_model_correspondence(ctx, classes, stats):
     stats["model_programs"] = len(progs)
     stats["model_outcomes"] = dist
     stats["model_mismatches"] = mism
+
+
+# ------------------------------------------------------------------------------------------------------------------
+# (iv) errors raised inside callbacks of native higher-order built-ins and transducers
+#
+# Which built-ins call a procedure they are given is not in the module tables (name and arity only); it is DISCOVERED on
+# every run: each built-in is applied, at arities 1..3, with a counting procedure `c07-cb` (accepts any number of
+# arguments) in every argument position and plausible collections / transducers / reducers in the other positions; the
+# result is then handed to a few consumers (a transducer / reducer is run by transduce, a procedure is called, a stream
+# is forced).  Wherever `c07-cb` was invoked — with k arguments — is a callback site.  Every site is then evaluated at
+# the TOP LEVEL (no handler) with callbacks that fail: the wrong number of parameters (k+1, k-1, 0), a callback that
+# raises, one whose body makes an arity error, one that itself runs a native higher-order procedure with a callback of
+# the wrong arity, and a non-procedure.  After the error (harness job `C`): the let-probe (a top-level let* / let with
+# several variables and calls: operands left behind show as wrong values), the same text again, the depth hook, the
+# probe; then the same expression under a handler installed with call-with-exception-handler inside two nested
+# procedures, whose value the reference semantics fixes, and the depth after that successful evaluation.
+
+CB_OTHERS = ["(list 10 20 30)", "(vector 10 20 30)", "(hash 'a 1 'b 2)", "\"abc\"", "2", "c07-cb", "(hashset 10 20)",
+             "(mapping (lambda (x) x))", "(into-list)", "(immutable-vector 10 20 30)"]
+CB_CONSUMERS = ["{R}", "(transduce (list 10 20 30) {R} (into-list))", "(transduce (list 10 20 30) (mapping (lambda (x) x)) {R})",
+                "({R})", "({R} 10)", "({R} 10 20)", "(stream-car {R})", "(stream-car (#%stream-cdr {R}))"]
+CB_PRELUDE = """(define c07-seen '())
+(define (c07-cb . args) (set! c07-seen (cons (length args) c07-seen)) #f)
+(define (c07-try th) (with-handler (lambda (e) 'c07-err) (th)))
+(define (c07-plain? r)
+  (or (number? r) (string? r) (boolean? r) (void? r) (symbol? r) (char? r) (list? r) (vector? r) (hash? r)
+      (eq? r c07-cb)))        ; (a built-in that returns its argument is not a callback site)
+(define c07-oth (vector %s))
+(define c07-out '())
+(define (c07-note! cand consumer)
+  (when (not (null? c07-seen))
+    (set! c07-out (cons (list cand consumer c07-seen) c07-out))
+    (set! c07-seen '())))
+(define (c07-disc cand thunk)
+  (set! c07-seen '())
+  (let ((r (c07-try thunk)))
+    (c07-note! cand 0)
+    (when (not (c07-plain? r))
+%s)))
+(define (c07-each1 f) (let loop ((i 0)) (when (< i %d) (f i (vector-ref c07-oth i)) (loop (+ i 1)))))
+(define (c07-each2 f)
+  (let loop ((i 0)) (when (< i %d)
+    (let inner ((j 0)) (when (< j %d) (f i j (vector-ref c07-oth i) (vector-ref c07-oth j)) (inner (+ j 1))))
+    (loop (+ i 1)))))
+""" % (" ".join("(lambda () %s)" % o for o in CB_OTHERS),
+       "\n".join("      (c07-try (lambda () %s)) (c07-note! cand %d)" % (c.replace("{R}", "r"), i) for i, c in enumerate(CB_CONSUMERS) if i),
+       len(CB_OTHERS), len(CB_OTHERS), len(CB_OTHERS))
+
+
+def builtin_head(module, name):
+    return "(%%module-get%% %%-builtin-module-%s '%s)" % (module, name)
+
+
+def discovery_text(module, name, arities):
+    """candidate code = arity*10000 + position*1000 + i*10 + j (i, j: indices into CB_OTHERS of the other arguments)"""
+    t = [CB_PRELUDE, "(define c07-f %s)" % builtin_head(module, name)]
+    for a in arities:
+        for p in range(a):
+            code = a * 10000 + p * 1000
+            if a == 1:
+                t.append("(c07-disc %d (lambda () (c07-f c07-cb)))" % code)
+            elif a == 2:
+                args = ["c07-cb", "(x)"] if p == 0 else ["(x)", "c07-cb"]
+                t.append("(c07-each1 (lambda (i x) (c07-disc (+ %d (* 10 i)) (lambda () (c07-f %s)))))" % (code, " ".join(args)))
+            else:
+                args = ["(x)", "(y)"]
+                args.insert(p, "c07-cb")
+                t.append("(c07-each2 (lambda (i j x y) (c07-disc (+ %d (* 10 i) j) (lambda () (c07-f %s)))))" % (code, " ".join(args)))
+    t.append("c07-out")
+    return "\n".join(t)
+
+
+def discover_callback_sites(ctx):
+    """[(module, name, arity, position, (i, j), consumer, sorted argument counts)]: where a built-in (or what it returns,
+    run by a consumer) invoked the procedure it was given"""
+    fns = list_builtins()
+    items = []
+    meta = {}
+    for key in sorted(fns):
+        module, kind, arity, name = fns[key]
+        if denied(module, name) or " " in name or name.startswith("c07-"):
+            continue
+        ars = [a for a in arities_for(arity, True) if 1 <= a <= 3]
+        m = re.match(r"(\w+)\((\d+)(?:, (\d+))?\)", arity)
+        if m:      # only arities the procedure accepts (the arity check itself is the sweep's business)
+            lo = int(m.group(2)) if m.group(1) in ("Exact", "AtLeast", "Range") else 0
+            hi = int(m.group(2)) if m.group(1) in ("Exact", "AtMost") else int(m.group(3)) if m.group(1) == "Range" else 99
+            ars = [a for a in ars if lo <= a <= hi]
+        if not ars:
+            continue
+        k = "x:disc:%s:%s" % (module, name)
+        items.append((k, discovery_text(module, name, ars).encode()))
+        meta[k] = (module, name)
+    res = run_texts(ctx, items, tag="d", phases=False, engine_every=25, soft_ms=4000, hard_ms=8000, batch=12)
+    sites = []
+    stats = {"callback_discovery_builtins": len(items), "callback_discovery_failed": 0}
+    lost = []
+    for k, _ in items:
+        r = res.get(k) or {}
+        v = r.get("value")
+        if v is None:
+            stats["callback_discovery_failed"] += 1
+            lost.append("%s: %s" % (meta[k][1], (r.get("res") or r.get("death") or ("hang" if r.get("hang") else "?"))[:80]))
+            continue
+        v = v.split("\x1f")[-1]
+        for m in re.finditer(r"\((\d+) (\d+) \(([\d ]+)\)\)", v):
+            cand, cons = int(m.group(1)), int(m.group(2))
+            ks = sorted(set(int(x) for x in m.group(3).split()))
+            a, p, i, j = cand // 10000, (cand // 1000) % 10, (cand // 10) % 100, cand % 10
+            sites.append((meta[k][0], meta[k][1], a, p, (i, j), cons, tuple(ks)))
+    stats["callback_discovery_lost"] = lost[:40]
+    return sorted(set(sites)), stats
+
+
+def callback_expr(site, bad):
+    module, name, a, p, (i, j), cons, ks = site
+    others = [CB_OTHERS[i], CB_OTHERS[j]][: a - 1] if a == 3 else [CB_OTHERS[i]][: a - 1]
+    others = [bad if o == "c07-cb" else o for o in others]
+    args = list(others)
+    args.insert(p, bad)
+    return CB_CONSUMERS[cons].replace("{R}", "(%s %s)" % (builtin_head(module, name), " ".join(args)))
+
+
+def bad_callbacks(ks):
+    """(kind, expression) of the failing callbacks for a site that invokes its procedure with k in ks arguments"""
+    out = []
+    for n in sorted(set([0] + [k + 1 for k in ks] + [k - 1 for k in ks if k >= 2]) - set(ks)):
+        out.append(("wrong-arity", "(lambda (%s) #t)" % " ".join("a%d" % x for x in range(n))))
+    out += [("raises", "(lambda args (error \"c07-cb\"))"), ("raises", "(lambda args (car 5))"),
+            ("inner-arity-error", "(lambda args (c07-keep-fn))"),
+            ("nested-wrong-arity", "(lambda args (transduce (list 1 2) (filtering (lambda (x y) #t)) (into-list)))"),
+            ("non-procedure", "5")]
+    return out
+
+
+HANDLED_EXPECTED = "(0 (1 100 100 2) 3)"
+# what the faithful model (Model.lean, `native` with a wrong arity under `handle`) predicts for the code that exists:
+# each handled error discounts a frame that was never counted, the evaluation ends when pop_count reaches 0 — two
+# frames early — and the frame of the outermost procedure stays on the frame stack (theorem `handled_native_arity_error_*`)
+HANDLED_MODEL = ("100", "1 0")
+# the two shapes as programs of the recovery model (driver line protocol): (list 0 (hg) 3) and (list 0 (hm) 3)
+HANDLED_SHAPES = ["P0 C[P1 C[P0 H[O P100][A] O O P0] C[P0 H[O P100][A] O O P0] P2 O O O O P0] P3 O O O P0",
+                  "P0 C[P7 P8 C[P1 C[P0 H[O P100][A] O O P0] C[P0 H[O P100][A] O O P0] F9]]"]
+
+
+def handled_model_prediction(ctx):
+    """what the faithful model answers for the two shapes: (depth after the handled evaluation, does the unhandled
+    error after two handled ones leave operands).  None when the driver does not answer."""
+    rc, out, err = C.run_bin([C.driver_path("c07driver")], "\n".join(HANDLED_SHAPES) + "\n", timeout=60)
+    ls = out.splitlines()
+    if rc != 0 or len(ls) != 2:
+        return None
+    m1 = re.match(r"ok \d+ frames=(\d+) stack=(\d+)", ls[0])
+    m2 = re.match(r"error \d+ frames=(\d+) stack=(\d+)", ls[1])
+    if not m1 or not m2:
+        return None
+    return ("%s %s" % (m1.group(1), m1.group(2)), int(m2.group(1)) == 0 and int(m2.group(2)) > 0)
+
+
+def run_callbacks(ctx, classes, stats):
+    t0 = time.time()
+    sites, dstats = discover_callback_sites(ctx)
+    stats.update(dstats)
+    # the same callback path is found with many combinations of the other arguments: two per (procedure, arity,
+    # position, consumer, argument counts)
+    per = {}
+    for s in sites:
+        per.setdefault((s[0], s[1], s[2], s[3], s[5], s[6]), []).append(s)
+    chosen = []
+    for k in sorted(per):
+        v = per[k]
+        chosen += [v[0]] + ([v[-1]] if len(v) > 1 else [])
+    stats["callback_sites"] = len(per)
+    stats["callback_site_procedures"] = sorted(set(s[1] for s in sites))
+    items, meta = [], {}
+    for s in chosen:
+        for kind, bad in bad_callbacks(s[6]):
+            e = callback_expr(s, bad)
+            text = "(list 41 (c07-keep-fn 42) %s)" % e
+            handled = HSEP.join(["(define (c07-hf) (+ 0 (call-with-exception-handler (lambda (e) 100) (lambda () %s))))" % e,
+                                 "(define (c07-hg) (list 1 (c07-hf) (c07-hf) 2))",
+                                 "(define (c07-hk) (list 1 (c07-hf) (c07-hf) (car 5)))", "(define (c07-hm) (list 7 8 (c07-hk)))",
+                                 "(list 0 (c07-hg) 3)", "(list 0 (c07-hm) 3)"])
+            key = "cb:%d" % len(items)
+            items.append((key, tuple([text.encode()] + [x.encode() for x in handled.split(HSEP)])))
+            meta[key] = (s, kind, text, handled)
+    res = run_texts(ctx, items, tag="c", phases=False, engine_every=30, soft_ms=3000, hard_ms=8000, batch=20) if items else {}
+    pred = handled_model_prediction(ctx)
+    stats["callback_model_prediction"] = pred
+    out = {"ok": 0, "err": 0, "other": 0, "let_probe_same": 0, "handled_as_expected": 0, "handled_as_model_of_finding": 0, "second_run_differs": 0}
+    for key, _ in items:
+        r = res.get(key)
+        s, kind, text, handled = meta[key]
+        if r is None:
+            out["other"] += 1
+            continue
+        rs = r.get("res", "")
+        out["ok" if rs.startswith("ok") else "err" if rs.startswith("err") else "other"] += 1
+        src = "callbacks"
+        for ck, det in failure_classes(r):
+            classes.add(ck, text, det + "  [%s callback at site %s/%d position %d, consumer %d]" % (kind, s[1], s[2], s[3], s[5]), src)
+        if not rs.startswith("err"):
+            continue
+        if r.get("second_run_differs"):
+            out["second_run_differs"] += 1
+        lp = r.get("let_probe")
+        if lp == "same":
+            out["let_probe_same"] += 1
+        elif lp is not None:
+            classes.add("probe:let-after-callback-error", text + HSEP + "(let* ((a (c07-keep-fn 5)) (b (+ (car a) 1)) (c (list a b))) (let ((d (c07-keep-fn b)) (e (#%verif-stack-depth)) (f (length c))) (list a b c d e f)))",
+                        "a top-level let evaluated after the error: " + lp[:300], src)
+        hv, hd, hu = r.get("handled_value"), r.get("handled_depth"), r.get("then_unhandled")
+        if hv is None:
+            continue
+        if hv == HANDLED_EXPECTED and hd == "0 0" and hu == "err 0 0":
+            out["handled_as_expected"] += 1
+        elif (kind in ("wrong-arity", "nested-wrong-arity") and pred is not None and hv == HANDLED_MODEL[0] and hd == pred[0]
+              and bool(re.fullmatch(r"err 0 [1-9]\d*", hu or "")) == pred[1]):
+            # the class predicate (an ArityMismatch raised by call_with_* under a call-with-exception-handler handler)
+            # holds and the engine does what the faithful model does: finding K07ai
+            out["handled_as_model_of_finding"] += 1
+            classes.add("callback:handled-arity-error:ends-two-frames-early", handled + HSEP + "(#%verif-stack-depth)",
+                        "value %s (the reference semantics gives %s), stack depth afterwards %s; an unhandled error after two handled ones: %s (frames operands)  [%s]" % (hv, HANDLED_EXPECTED, hd, hu, s[1]), src)
+        else:
+            classes.add("callback:handled-error:%s" % ("wrong-value" if hv != HANDLED_EXPECTED else "frames-or-operands-left"),
+                        handled + HSEP + "(#%verif-stack-depth)",
+                        "value %s (expected %s), stack depth afterwards %s, unhandled error after handled ones: %s (expected err 0 0)  [%s callback, %s]" % (hv[:200], HANDLED_EXPECTED, hd, hu, kind, s[1]), src)
+    stats["callback_texts"] = len(items)
+    stats["callback_outcomes"] = out
+    stats["callbacks_wall_s"] = round(time.time() - t0, 1)
 
 
 # ------------------------------------------------------------------------------------------------------------------
@@ -1279,6 +1598,8 @@ def run_histories(ctx, classes, stats):
                 key = "history:macro-of-failed-program-is-not-defined"
             elif name == "finding-K07aa":
                 key = "history:continuation-of-earlier-evaluation-at-top-level"
+            elif name == "finding-K07ai":
+                key = "callback:handled-arity-error:ends-two-frames-early"
             classes.add(key, script, "; ".join(bad), "histories")
         elif bad:
             classes.add("history:" + name, script, "; ".join(bad), "histories")
@@ -1610,7 +1931,7 @@ def check_site_table(ctx, classes, stats):
             sites[(f[2], int(f[3]))] = f[1]
         elif f[0] == "reachable" and len(f) >= 3:
             named.add(f[1])
-        elif f[0] in ("arms2", "arms1", "unclassified", "stale", "sites"):
+        elif f[0] in ("arms2", "arms1", "unclassified", "stale", "sites", "unwind"):
             rows.append(l)
     stats["tables"] = rows[:40]
     observed = set()
@@ -1658,11 +1979,16 @@ def decide(ctx, classes, known, stats):
 # ------------------------------------------------------------------------------------------------------------------
 
 def translate(ctx):
-    rc, out = C.sh([sys.executable, os.path.join(C.VERIF, "translate", "c07_arms.py"), C.REPO], timeout=300)
-    try:
-        return rc == 0, json.loads(out.strip().splitlines()[-1]) if rc == 0 else out[-1500:]
-    except (ValueError, IndexError):
-        return False, out[-1500:]
+    info = {}
+    for script in ("c07_arms.py", "c07_unwind.py"):
+        rc, out = C.sh([sys.executable, os.path.join(C.VERIF, "translate", script), C.REPO], timeout=300)
+        try:
+            if rc != 0:
+                return False, script + ": " + out[-1500:]
+            info.update(json.loads(out.strip().splitlines()[-1]))
+        except (ValueError, IndexError):
+            return False, script + ": " + out[-1500:]
+    return True, info
 
 
 def run(ctx):
@@ -1783,6 +2109,9 @@ def run(ctx):
 
     run_histories(ctx, classes, stats)
     run_model_correspondence(ctx, classes, stats)
+
+    # (iv) errors inside callbacks of native higher-order built-ins
+    run_callbacks(ctx, classes, stats)
 
     # (ii) built-ins
     t1 = time.time()
